@@ -130,24 +130,41 @@ Theorem C18_replay_equals_online : forall d c plan d0 t p exc, table_wf d = true
 Proof. exact replay_equals_online. Qed.
 Print Assumptions C18_replay_equals_online.
 
+(* several databases configured through ONE EnvironmentContext (multidb env.py, --sql): the script of database k is the
+   script of call k alone under the explicit transactional_ddl options given up to it (context_opts is one dict: an
+   explicit override stays in force for later calls that give none); the dialects, runs and other settings of the other
+   calls do not matter *)
+Theorem C18_multi_db : forall calls env k c, nth_error calls k = Some c ->
+  nth_error (multi_out env calls) k =
+  Some (offline_out (dc_dialect c)
+          (mkOcfg (acc_of env (map dc_tddl (firstn (S k) calls))) (dc_per_mig c) (dc_conn_in_txn c) None) (dc_run c)).
+Proof. exact multi_nth_thm. Qed.
+Print Assumptions C18_multi_db.
+Theorem C18_multi_db_independent : forall calls calls' env k c,
+  nth_error calls k = Some c -> nth_error calls' k = Some c ->
+  map dc_tddl (firstn k calls) = map dc_tddl (firstn k calls') ->
+  nth_error (multi_out env calls) k = nth_error (multi_out env calls') k.
+Proof. exact multi_independent_thm. Qed.
+Print Assumptions C18_multi_db_independent.
+
 (* ---- non-vacuity: a transactional dialect of the table, two steps, the first with an autocommit section ---- *)
-Definition ex_run : run := mkRun true [mkOstep [IStmt 0%N; IAuto [1%N]; IStmt 2%N] 1 false; mkOstep [IStmt 0%N] 1 false] false.
+Definition ex_run : run := mkRun true [mkOstep [IStmt 0%N; IAuto [1%N]; IStmt 2%N] 1 false []; mkOstep [IStmt 0%N] 1 false []] false.
 Example C18_grammar_nonvacuous :
   In (Some (dget 5)) dialects /\ table_wf (dget 5) = true /\ effective_tddl (dget 5) (mkOcfg None true true None) = true /\
   count_begin (offline_events (dget 5) (mkOcfg None true true None) ex_run) = 3%nat /\
-  nth_error (r_steps ex_run) 1 = Some (mkOstep [IStmt 0%N] 1 false) /\ no_auto (mkOstep [IStmt 0%N] 1 false) = true.
+  nth_error (r_steps ex_run) 1 = Some (mkOstep [IStmt 0%N] 1 false []) /\ no_auto (mkOstep [IStmt 0%N] 1 false []) = true.
 Proof. vm_compute. repeat split; auto 10. Qed.
 Example C18_single_block_nonvacuous :
   table_wf (dget 1) = true /\ effective_tddl (dget 1) (mkOcfg None false true None) = true /\
-  forallb no_auto (r_steps (mkRun true [mkOstep [IStmt 0%N] 1 false; mkOstep [IStmt 0%N] 2 true] false)) = true /\
-  count_begin (offline_events (dget 1) (mkOcfg None false true None) (mkRun true [mkOstep [IStmt 0%N] 1 false; mkOstep [IStmt 0%N] 2 true] false)) = 1%nat.
+  forallb no_auto (r_steps (mkRun true [mkOstep [IStmt 0%N] 1 false []; mkOstep [IStmt 0%N] 2 true []] false)) = true /\
+  count_begin (offline_events (dget 1) (mkOcfg None false true None) (mkRun true [mkOstep [IStmt 0%N] 1 false []; mkOstep [IStmt 0%N] 2 true []] false)) = 1%nat.
 Proof. vm_compute. repeat split; auto. Qed.
 Example C18_no_markers_nonvacuous :
   table_wf (dget 4) = true /\ effective_tddl (dget 4) (mkOcfg None true true None) = false /\
   length (offline_events (dget 4) (mkOcfg None true true None) ex_run) = 16%nat.
 Proof. vm_compute. repeat split; auto. Qed.
 Example C18_cut_short_nonvacuous :
-  let r := mkRun true [mkOstep [IStmt 0%N] 1 false; mkOstep [IStmt 0%N; IAuto [1%N]] 0 false] true in
+  let r := mkRun true [mkOstep [IStmt 0%N] 1 false []; mkOstep [IStmt 0%N; IAuto [1%N]] 0 false []] true in
   table_wf (dget 5) = true /\ effective_tddl (dget 5) (mkOcfg None true false None) = true /\
   run_depth false (strip_sep (tokenize (dget 5) (offline_chunks_cut (dget 5) (mkOcfg None true false None) r))) = Some true /\
   count_begin (tokenize (dget 5) (offline_chunks_cut (dget 5) (mkOcfg None true false None) r)) = 3%nat.
